@@ -65,14 +65,6 @@ theorem validateData_verdict (H : HashFn) (f : Bytes) (c : Ctx) (he : c.err = fa
   · rw [if_neg hc] at h1
     simp at h1
 
-/-- the value the scan assigns to one chunk, as a function of what could be read -/
-def scanValue (H : HashFn) (hdr : Hdr) (ch : Chunk) (got : Bytes) (truncated : Bool) : Int :=
-  match H hdr.chunkHashType got with
-  | none => -1
-  | some d =>
-    let d := if ch.compLen = 0 then zeros d.length else d
-    if truncated then -1 else if d = ch.digest then 1 else -1
-
 /-- **one scanned chunk**: the value the scan assigns is 1 exactly when every stored byte was
 there to read and the bytes hash to the index checksum (zero-length: the all-zero checksum) -/
 theorem scan_value_exact (H : HashFn) (f : Bytes) (hdr : Hdr) (ch : Chunk) (pos : Nat) (d : Bytes)
